@@ -106,7 +106,7 @@ fn finish_mc(t: Totals, rule: &str, bounds: Value, witnesses: Vec<&'static str>,
     finish(ev)
 }
 
-const ALL_MALFORMED: [u8; 23] = [0, 1, 2, 3, 4, 5, 6, 7, 8, 9, 10, 11, 12, 13, 14, 15, 16, 17, 18, 19, 20, 21, 22];
+const ALL_MALFORMED: [u8; 26] = [0, 1, 2, 3, 4, 5, 6, 7, 8, 9, 10, 11, 12, 13, 14, 15, 16, 17, 18, 19, 20, 21, 22, 23, 24, 25];
 
 // ------------------------------------------------------------------------------------------------
 // C03
@@ -232,7 +232,7 @@ pub fn run_c03(tier: Tier) -> ! {
     }
     finish_mc(
         t,
-        "BFS over the joint state (real DpMaster, reference slaves, outstanding request, bring-up phase automaton); transitions = environment answers (answered / request lost / reply lost / token lost / power cycle / fault flags / 20 catalogue replies / user diagnostics request); states deduplicated on a canonical fingerprint; plus the option grid (fault-free bring-up + one power cycle) and all 65000 watchdog values",
+        "BFS over the joint state (real DpMaster, reference slaves, outstanding request, bring-up phase automaton); transitions = environment answers (answered / request lost / reply lost / token lost / power cycle / fault flags / 26 catalogue replies / user diagnostics request); states deduplicated on a canonical fingerprint; plus the option grid (fault-free bring-up + one power cycle) and all 65000 watchdog values",
         json!({"one_peripheral_depth": tier.pick(9, 40), "two_peripherals_depth": tier.pick(6, 14), "option_grid_worlds": grid, "watchdog_values": 65000}),
         vec!["c03_data_exchange_reached", "c03_state_beyond_bringup"],
         wd_evals,
